@@ -21,9 +21,61 @@ pub struct Case {
     pub k2_max_dgrams: usize,
     /// single-deviation extras applied at every index of the fault-free run (permanent faults)
     pub extra: Vec<Action>,
+    /// the `extra` (permanent) actions are offered on top of schedules with up to this many menu
+    /// deviations (0 = only on top of the fault-free run): "a datagram is lost, then the peer vanishes"
+    pub extra_after: usize,
+    /// tcp "bytes" mode: the offsets swept in each direction's wire stream are 1..=sweep, the last
+    /// sweep/4 offsets and every dc packet boundary +-2 (usize::MAX = every offset)
+    pub sweep: usize,
+    /// tcp "bytes" mode: the second deviation of a pair ranges over the first `sweep2` offsets and the
+    /// packet boundaries +-1 only
+    pub sweep2: usize,
 }
 
-pub const FAMILIES: &[&str] = &["data", "vanish", "jumbo"];
+pub const FAMILIES: &[&str] = &["data", "vanish", "jumbo", "tcp"];
+
+/// opt-in probe scenarios of the tcp family (DCMC_TCP_EXTRA=slow,silent): behaviours the pinned tree
+/// is known to show and that the lead has to judge (notes/wK.md); not part of `run C20` by default
+pub fn tcp_extra(what: &str) -> bool {
+    std::env::var("DCMC_TCP_EXTRA").map(|v| v.split(',').any(|x| x == what)).unwrap_or(false)
+}
+
+fn tcp_calls_menu() -> Vec<Action> {
+    vec![Action::One, Action::Half, Action::AllBut1, Action::Pend]
+}
+
+fn tcp_calls_extra() -> Vec<Action> {
+    vec![Action::SeverEof, Action::SeverReset, Action::Forget]
+}
+
+fn tcp_bytes_menu() -> Vec<Action> {
+    vec![Action::Split(0), Action::Split(1)]
+}
+
+fn tcp_bytes_extra() -> Vec<Action> {
+    vec![Action::CutEof(0), Action::CutEof(1), Action::CutReset(0), Action::CutReset(1)]
+}
+
+const UNBOUNDED: usize = 1 << 20;
+const ALL: usize = usize::MAX;
+
+#[allow(clippy::too_many_arguments)]
+fn tcp_calls(out: &mut Vec<Case>, req: usize, resp: usize, rbuf: usize, order: Order, cap: usize, rx: usize, tx: usize, prelude: bool, k: usize, k2_max: usize, menu: Vec<Action>, extra: Vec<Action>) {
+    let mut p = TcpParams::new(TcpMode::Calls);
+    p.cap = cap;
+    p.rx_chunk = rx;
+    p.tx_chunk = tx;
+    p.prelude = prelude;
+    out.push(Case { scn: Scenario::new_tcp(req, resp, rbuf, order, p), menu, k, k2_max_dgrams: k2_max, extra, extra_after: 0, sweep: 0, sweep2: 0 });
+}
+
+#[allow(clippy::too_many_arguments)]
+fn tcp_bytes(out: &mut Vec<Case>, req: usize, resp: usize, rbuf: usize, order: Order, cap: usize, prelude: bool, k: usize, sweep: usize, sweep2: usize) {
+    let mut p = TcpParams::new(TcpMode::Bytes);
+    p.cap = cap;
+    p.prelude = prelude;
+    out.push(Case { scn: Scenario::new_tcp(req, resp, rbuf, order, p), menu: tcp_bytes_menu(), k, k2_max_dgrams: usize::MAX, extra: tcp_bytes_extra(), extra_after: 0, sweep, sweep2 });
+}
 
 pub fn menu() -> Vec<Action> {
     // Dup: the copy arrives 100 us after the original (back to back) ; Delay(3): 1.5 ms instead of
@@ -84,7 +136,7 @@ pub fn family(name: &str, tier: Tier) -> Vec<Case> {
                     // losses there (thorough has the full menu)
                     let m = if rbuf == 1 && req + resp > 2 { vec![Action::Drop] } else { menu() };
                     let _ = k;
-                    out.push(Case { scn: Scenario::new(req, resp, rbuf, order, mtu), menu: m, k: 2, k2_max_dgrams: K2_MAX_DGRAMS_QUICK, extra: vec![] });
+                    out.push(Case { scn: Scenario::new(req, resp, rbuf, order, mtu), menu: m, k: 2, k2_max_dgrams: K2_MAX_DGRAMS_QUICK, extra: vec![], extra_after: 0, sweep: 0, sweep2: 0 });
                 }
             } else {
                 // full product order x mtu x (req,resp) pairs; the read buffer rotates through its values so
@@ -98,7 +150,7 @@ pub fn family(name: &str, tier: Tier) -> Vec<Case> {
                             let small = req <= 1000 && resp <= 1000;
                             let rbuf = if small { RBUFS[n % 3] } else { RBUFS[1 + n % 2] };
                             n += 1;
-                            out.push(Case { scn: Scenario::new(req, resp, rbuf, order, mtu), menu: menu(), k: 2, k2_max_dgrams: K2_MAX_DGRAMS_THOROUGH, extra: vec![] });
+                            out.push(Case { scn: Scenario::new(req, resp, rbuf, order, mtu), menu: menu(), k: 2, k2_max_dgrams: K2_MAX_DGRAMS_THOROUGH, extra: vec![], extra_after: 0, sweep: 0, sweep2: 0 });
                         }
                     }
                 }
@@ -123,7 +175,32 @@ pub fn family(name: &str, tier: Tier) -> Vec<Case> {
             for (req, resp, rbuf, order, mtu) in list {
                 let mut scn = Scenario::new(req, resp, rbuf, order, mtu);
                 scn.name = format!("vanish/{}", scn.name);
-                out.push(Case { scn, menu: vec![], k: 0, k2_max_dgrams: 0, extra: vec![Action::BlackholeFrom, Action::Forget] });
+                out.push(Case { scn, menu: vec![], k: 0, k2_max_dgrams: 0, extra: vec![Action::BlackholeFrom, Action::Forget], extra_after: 0, sweep: 0, sweep2: 0 });
+            }
+            // One finite fault first, then the permanent one: every schedule [i D, j B] and [i D, j F] with
+            // j > i (thorough: also [i L3, j ..]) on transfers of a few dozen datagrams. This reaches receiver
+            // states that need a loss to exist when the peer vanishes, e.g. `SizeKnown` with a gap (the
+            // packet carrying the final offset arrived, an earlier data packet did not).
+            let list2: Vec<(usize, usize, usize, Order, u16)> = if quick {
+                vec![(1000, 1000, 100, Order::Seq, 1500), (1, 1, 1, Order::Seq, 1250), (9000, 9000, 65_536, Order::Concurrent, 9000), (1000, 1000, 100, Order::DropWriter, 1250), (1000, 1000, 100, Order::EarlyShutdown, 1500)]
+            } else {
+                vec![
+                    (1000, 1000, 100, Order::Seq, 1500),
+                    (1, 1, 1, Order::Seq, 1250),
+                    (9000, 9000, 65_536, Order::Concurrent, 9000),
+                    (1000, 1000, 100, Order::DropWriter, 1250),
+                    (1000, 1000, 100, Order::EarlyShutdown, 1500),
+                    (1000, 1000, 100, Order::SeqFin, 1500),
+                    (9000, 9000, 100, Order::Seq, 9000),
+                    (1000, 9000, 65_536, Order::DropReader, 9000),
+                    (9000, 1000, 100, Order::Concurrent, 1500),
+                ]
+            };
+            for (req, resp, rbuf, order, mtu) in list2 {
+                let mut scn = Scenario::new(req, resp, rbuf, order, mtu);
+                scn.name = format!("vanish+loss/{}", scn.name);
+                let menu = if quick { vec![Action::Drop] } else { vec![Action::Drop, Action::Delay(3)] };
+                out.push(Case { scn, menu, k: 1, k2_max_dgrams: 0, extra: vec![Action::BlackholeFrom, Action::Forget], extra_after: 1, sweep: 0, sweep2: 0 });
             }
         }
         // MTUs above 16 383: the property's quantifier goes to 32k. Kept apart from the main grid because
@@ -131,10 +208,93 @@ pub fn family(name: &str, tier: Tier) -> Vec<Case> {
         // see notes/wI.md): the violation then has a stable fingerprint of its own.
         "jumbo" => {
             for mtu in [16_384u16, 32_000] {
-                out.push(Case { scn: Scenario::new(1000, 1000, 100, Order::Seq, mtu), menu: menu(), k: 2, k2_max_dgrams: K2_MAX_DGRAMS_QUICK, extra: vec![Action::BlackholeFrom] });
+                out.push(Case { scn: Scenario::new(1000, 1000, 100, Order::Seq, mtu), menu: menu(), k: 2, k2_max_dgrams: K2_MAX_DGRAMS_QUICK, extra: vec![Action::BlackholeFrom], extra_after: 0, sweep: 0, sweep2: 0 });
             }
             if !quick {
-                out.push(Case { scn: Scenario::new(40_000, 40_000, 65_536, Order::Concurrent, 32_000), menu: menu(), k: 2, k2_max_dgrams: K2_MAX_DGRAMS_THOROUGH, extra: vec![] });
+                out.push(Case { scn: Scenario::new(40_000, 40_000, 65_536, Order::Concurrent, 32_000), menu: menu(), k: 2, k2_max_dgrams: K2_MAX_DGRAMS_THOROUGH, extra: vec![], extra_after: 0, sweep: 0, sweep2: 0 });
+            }
+        }
+        // the dc stream over a stream transport (Protocol::Tcp), see tcp.rs. MTU is not a dimension: over
+        // a stream transport dc writes records of up to 2^14 bytes whatever the path MTU is.
+        "tcp" => {
+            let k2 = if quick { 24 } else { 48 };
+            // ---- "calls" mode: deviations {One, Half, AllBut1, Pend} at every socket call, k = 2 where the
+            //      fault-free run has at most k2 calls, else 1; connection closed / reset / path secret
+            //      forgotten at every socket call
+            // (thorough: three deviations on the smallest transfers)
+            let k_small = if quick { 2 } else { 3 };
+            for order in ORDERS {
+                tcp_calls(&mut out, 1000, 1000, 100, order, UNBOUNDED, ALL, ALL, true, k_small, k2, tcp_calls_menu(), tcp_calls_extra());
+            }
+            tcp_calls(&mut out, 1, 1, 1, Order::Seq, UNBOUNDED, ALL, ALL, false, k_small, k2, tcp_calls_menu(), tcp_calls_extra());
+            tcp_calls(&mut out, 1000, 1, 1, Order::Concurrent, UNBOUNDED, ALL, ALL, false, k_small, k2, tcp_calls_menu(), tcp_calls_extra());
+            // backpressure: the connection buffers less than the transfer, writes are partial / Pending
+            tcp_calls(&mut out, 9000, 9000, 65_536, Order::Concurrent, 4096, ALL, ALL, true, 1, k2, tcp_calls_menu(), tcp_calls_extra());
+            tcp_calls(&mut out, 40_000, 40_000, 65_536, Order::Seq, 8192, ALL, ALL, false, 1, k2, tcp_calls_menu(), tcp_calls_extra());
+            tcp_calls(&mut out, 40_000, 1000, 100, Order::EarlyShutdown, UNBOUNDED, ALL, ALL, true, 1, k2, tcp_calls_menu(), tcp_calls_extra());
+            tcp_calls(&mut out, 9000, 40_000, 65_536, Order::SeqFin, 100, ALL, ALL, true, 1, k2, tcp_calls_menu(), tcp_calls_extra());
+            tcp_calls(&mut out, 9000, 9000, 100, Order::DropReader, 4096, ALL, ALL, false, 1, k2, tcp_calls_menu(), tcp_calls_extra());
+            tcp_calls(&mut out, 40_000, 9000, 65_536, Order::DropWriter, UNBOUNDED, ALL, ALL, true, 1, k2, tcp_calls_menu(), tcp_calls_extra());
+            // more than the 64 KiB receive ring of a stream (msg::recv::Message): the ring wraps
+            tcp_calls(&mut out, 150_000, 150_000, 65_536, Order::Concurrent, UNBOUNDED, ALL, ALL, true, 1, k2, tcp_calls_menu(), tcp_calls_extra());
+            tcp_calls(&mut out, 150_000, 1000, 100, Order::Seq, 8192, ALL, ALL, false, 1, k2, tcp_calls_menu(), tcp_calls_extra());
+            // ---- segmentation runs: every read returns at most rx bytes / every write accepts at most tx
+            tcp_calls(&mut out, 1000, 1000, 100, Order::Seq, UNBOUNDED, 1, ALL, true, 1, 0, vec![Action::Pend], vec![]);
+            tcp_calls(&mut out, 1000, 1000, 1, Order::Concurrent, UNBOUNDED, ALL, 1, false, 1, 0, vec![Action::Pend], vec![]);
+            tcp_calls(&mut out, 9000, 9000, 65_536, Order::SeqFin, UNBOUNDED, 1, 1, true, 0, 0, vec![], vec![]);
+            tcp_calls(&mut out, 40_000, 40_000, 65_536, Order::Concurrent, UNBOUNDED, 1, ALL, false, 0, 0, vec![], vec![]);
+            tcp_calls(&mut out, 40_000, 9000, 100, Order::Seq, UNBOUNDED, ALL, 1, true, 0, 0, vec![], vec![]);
+            tcp_calls(&mut out, 40_000, 40_000, 65_536, Order::EarlyShutdown, 1000, 7, 13, true, 0, 0, vec![], vec![]);
+            tcp_calls(&mut out, 9000, 40_000, 100, Order::DropWriter, 4096, 1447, 1447, false, 1, 0, vec![Action::Pend], vec![]);
+            tcp_calls(&mut out, 150_000, 150_000, 65_536, Order::SeqFin, UNBOUNDED, 1447, ALL, true, 1, 0, vec![Action::Pend], vec![]);
+            if !quick {
+                for order in ORDERS {
+                    tcp_calls(&mut out, 9000, 9000, 100, order, 4096, ALL, ALL, false, 2, k2, tcp_calls_menu(), tcp_calls_extra());
+                    tcp_calls(&mut out, 1, 40_000, 65_536, order, UNBOUNDED, ALL, ALL, true, 2, k2, tcp_calls_menu(), tcp_calls_extra());
+                    tcp_calls(&mut out, 1000, 1000, 1, order, 100, ALL, ALL, true, 2, 64, tcp_calls_menu(), tcp_calls_extra());
+                    tcp_calls(&mut out, 40_000, 40_000, 65_536, order, 8192, ALL, ALL, true, 2, k2, tcp_calls_menu(), tcp_calls_extra());
+                    tcp_calls(&mut out, 9000, 1000, 100, order, UNBOUNDED, 1, 1, false, 0, 0, vec![], vec![]);
+                }
+            }
+            // ---- "bytes" mode: a TCP segment boundary (no read crosses it) at every wire offset of either
+            //      direction; the stream cut (EOF / RST) after exactly i wire bytes of either direction
+            if quick {
+                tcp_bytes(&mut out, 1, 1, 1, Order::Seq, UNBOUNDED, true, 2, ALL, 24);
+                tcp_bytes(&mut out, 1000, 1000, 100, Order::Seq, UNBOUNDED, false, 1, ALL, 0);
+                tcp_bytes(&mut out, 1000, 9000, 65_536, Order::Concurrent, UNBOUNDED, true, 1, 160, 0);
+                tcp_bytes(&mut out, 40_000, 40_000, 65_536, Order::SeqFin, UNBOUNDED, false, 1, 96, 0);
+                tcp_bytes(&mut out, 9000, 1000, 100, Order::DropWriter, 4096, true, 1, 96, 0);
+                tcp_bytes(&mut out, 1000, 40_000, 100, Order::DropReader, UNBOUNDED, true, 1, 96, 0);
+                tcp_bytes(&mut out, 40_000, 1, 65_536, Order::EarlyShutdown, 8192, true, 1, 96, 0);
+                tcp_bytes(&mut out, 150_000, 150_000, 65_536, Order::Seq, UNBOUNDED, true, 1, 64, 0);
+            } else {
+                tcp_bytes(&mut out, 150_000, 150_000, 65_536, Order::Seq, UNBOUNDED, true, 1, 256, 0);
+                tcp_bytes(&mut out, 150_000, 150_000, 100, Order::Concurrent, 8192, false, 1, 256, 0);
+                tcp_bytes(&mut out, 1, 1, 1, Order::Seq, UNBOUNDED, true, 2, ALL, ALL);
+                tcp_bytes(&mut out, 1, 1, 100, Order::SeqFin, UNBOUNDED, false, 2, ALL, ALL);
+                for (i, order) in ORDERS.iter().enumerate() {
+                    tcp_bytes(&mut out, 1000, 1000, RBUFS[i % 3], *order, UNBOUNDED, i % 2 == 0, 1, ALL, 0);
+                    tcp_bytes(&mut out, 9000, 9000, RBUFS[1 + i % 2], *order, if i % 2 == 0 { 4096 } else { UNBOUNDED }, i % 2 == 1, 1, ALL, 0);
+                    tcp_bytes(&mut out, 40_000, 40_000, 65_536, *order, if i % 2 == 1 { 8192 } else { UNBOUNDED }, i % 2 == 0, 1, 2048, 0);
+                }
+                tcp_bytes(&mut out, 1000, 1000, 100, Order::Concurrent, UNBOUNDED, true, 2, 64, 64);
+                tcp_bytes(&mut out, 1000, 1000, 100, Order::Seq, UNBOUNDED, false, 2, 64, 64);
+            }
+            // ---- opt-in probes (see notes/wK.md)
+            if tcp_extra("slow") {
+                // A reader that pauses 2 s before every read while the connection's buffer is full: the
+                // client's shutdown() finds room for only 7 of the 49 bytes of its FIN record, the rest is
+                // handed to a background task that gives up after 1 s (stream/runtime/*.rs
+                // spawn_send_shutdown). On the pinned tree both sides then wait for ever (notes/wK.md F1).
+                let mut p = TcpParams::new(TcpMode::Calls);
+                p.cap = 1100;
+                p.pause_ms = 2000;
+                out.push(Case { scn: Scenario::new_tcp(2100, 1, 4000, Order::Seq, p), menu: vec![], k: 0, k2_max_dgrams: 0, extra: vec![], extra_after: 0, sweep: 0, sweep2: 0 });
+            }
+            if tcp_extra("silent") {
+                // the peer vanishes without RST / FIN and the kernel has no keepalive: nothing is ever reported
+                let p = TcpParams::new(TcpMode::Calls);
+                out.push(Case { scn: Scenario::new_tcp(1000, 1000, 100, Order::Seq, p), menu: vec![], k: 0, k2_max_dgrams: 0, extra: vec![Action::SeverQuiet], extra_after: 0, sweep: 0, sweep2: 0 });
             }
         }
         _ => panic!("unknown family {}", name),
